@@ -20,8 +20,9 @@ variable's definition unit and size 1, the length was checked on entry, the seco
 conversion is idempotent), so the loops are written with the pure `sput`.
 Not mirrored (outside the claim domain, never generated): when `sub.offset(1)` overflows year 9999
 in the middle of the dispatch loop the code has already written some pieces; the model refuses the
-whole input and leaves the store unchanged. `Simulation.set_input`'s `variable.end` shortcut,
-neutralised variables, string inputs and on-disk storage are not modelled.
+whole input and leaves the store unchanged. On-disk storage is not modelled (it is not observable:
+the harness runs part of the histories with every array forced to disk); string inputs are
+evaluated by the harness' token syntax (the model receives the number).
 -/
 namespace OFCore
 
@@ -46,7 +47,9 @@ def skeys : Store → List Period
 inductive SRule | absent | dispatch | divide
 deriving DecidableEq, Repr, Inhabited
 
-inductive VKind | num | int
+/-- `num` float variable, `int` integer variable, `opaque` any other value type (bool, date, str,
+enum): the items are only copied, the driver encodes them as numbers -/
+inductive VKind | num | int | opaque
 deriving DecidableEq, Repr, Inhabited
 
 /-- what the spreading code reads of a variable and its population -/
@@ -55,6 +58,10 @@ structure VarSpec where
   rule : SRule
   kind : VKind
   count : Nat
+  /-- `variable.is_neutralized` (`TaxBenefitSystem.neutralize_variable`) -/
+  neutralized : Bool := false
+  /-- `variable.end` -/
+  endDate : Option Date := none
 deriving Repr, Inhabited
 
 /-- float → int32 conversion: truncation towards zero -/
@@ -64,6 +71,7 @@ def castVec (k : VKind) (v : Vec) : Vec :=
   match k with
   | .num => v
   | .int => v.map truncR
+  | .opaque => v
 
 def vsub (a b : Vec) : Vec := List.zipWith (· - ·) a b
 def vadd (a b : Vec) : Vec := List.zipWith (· + ·) a b
@@ -78,8 +86,10 @@ def toArray (var : VarSpec) (v : Vec) : Except String Vec :=
 def skey (var : VarSpec) (p : Period) : Period :=
   if var.defUnit = .eternity then Period.eternity else p
 
-/-- `Holder.get_array` -/
-def getArray (var : VarSpec) (s : Store) (p : Period) : Option Vec := sget s (skey var p)
+/-- `Holder.get_array` : a neutralised variable always answers its default (here `0`: only
+numeric variables are neutralised by the harness) -/
+def getArray (var : VarSpec) (s : Store) (p : Period) : Option Vec :=
+  if var.neutralized then some (vzero var.count) else sget s (skey var p)
 
 /-- `Holder._set` -/
 def holderSet (var : VarSpec) (s : Store) (p : Period) (v : Vec) : Except String Store := do
@@ -143,13 +153,26 @@ def divideByPeriod (var : VarSpec) (s : Store) (p : Period) (v : Vec) : Except S
   let subs ← walk var.defUnit p
   divideOn var.kind s subs a
 
-/-- `Holder.set_input` (variable not neutralised, value not a string) -/
+/-- `Holder.set_input` (a string value has already been evaluated to its number): an input on a
+neutralised variable is ignored with a warning -/
 def setInput (var : VarSpec) (s : Store) (p : Period) (v : Vec) : Except String Store :=
   if p.unit = .eternity ∧ var.defUnit ≠ .eternity then .error "mismatch" else
+  if var.neutralized then .ok s else
   match var.rule with
   | .dispatch => dispatchByPeriod var s p v
   | .divide => divideByPeriod var s p v
   | .absent => holderSet var s p v
+
+/-- `Simulation.set_input` (and the same test in `SimulationBuilder.finalize_variables_init`): an
+input whose period starts after the variable's `end` is silently ignored; `period.start.date` is
+a pendulum date, so with an `end` the start must be a real date -/
+def simSetInput (var : VarSpec) (s : Store) (p : Period) (v : Vec) : Except String Store :=
+  match var.endDate with
+  | none => setInput var s p v
+  | some e =>
+    if !dateOk p.start then .error "date"
+    else if e.lt p.start then .ok s
+    else setInput var s p v
 
 /-- `calculate(v, q)` on a variable without formula, added to the running sum: a piece that is
 not known evaluates to the default and is cached -/
@@ -172,7 +195,8 @@ def calcAdd (var : VarSpec) (s : Store) (p : Period) : Except String (Option Vec
   else if p.unit = .eternity then .error "eternal-period"
   else do
     let subs ← p.subperiods var.defUnit
-    if subs.isEmpty then .ok (none, s) else
+    if subs.isEmpty then .ok (none, s)
+    else if var.neutralized then .ok (some (vzero var.count), s) else
     let r := sumOver var.count s subs
     .ok (some r.1, r.2)
 
